@@ -203,11 +203,14 @@ class NamedObject:
       # first one: look at all elements to tell a list of hardware objects
       elif isinstance( obj, list ) and any( isinstance( x, (NamedObject, list) ) for x in obj ):
         fields = sd.NamedObject_fields
+        # s.x += [ ... ] assigns the same list again, with new elements at
+        # its end: those still have to be named
+        extended = False
         if name in fields:
-          if getattr( s, name ) is obj:
-            return
-          raise FieldReassignError(f"The attempt to assign hardware construct to field {name} is illegal:\n"
-                                   f" - top{repr(s)[1:]} already has field {name} with type {type(getattr( s, name ))}.")
+          if getattr( s, name ) is not obj:
+            raise FieldReassignError(f"The attempt to assign hardware construct to field {name} is illegal:\n"
+                                     f" - top{repr(s)[1:]} already has field {name} with type {type(getattr( s, name ))}.")
+          extended = True
         fields.add( name )
 
         Q = deque( (u, (i,)) for i, u in enumerate(obj) )
@@ -217,6 +220,8 @@ class NamedObject:
 
           if isinstance( u, NamedObject ):
             ud = u._dsl
+            if extended and hasattr( ud, "full_name" ):
+              continue
 
             ud.parent_obj = s
             ud.level      = sd.level + 1
